@@ -294,9 +294,6 @@ func (rn *runner) corpusZeroSaver() {
 // Run generates n cases from seed, runs them on the real application and writes
 // cases_*.v and stats.json into outDir.
 func Run(seed int64, n int, outDir string) error {
-	if n == -8 {
-		return dbgSlash(outDir)
-	}
 	rn := newRunner(seed)
 	defer rn.w.h.Close()
 	rn.st = emit.NewStats("C10", seed, "step: one message or block on the full application, compared with the model on the dumped state; non-trivial when a claim (explicit or inside delegate/undelegate) paid > 0 while >= 2 delegators of the validator held different share amounts, distinct by (validator, user, amounts paid). pure: types.Calculate* on generated integers")
